@@ -120,6 +120,7 @@ def gen_case(rng, *, max_tids=8, backend=None):
         case['second'] = dict(req=[rng.randrange(len(inst)) for _ in range(rng.randint(1, 3))],
                               bust=int(rng.random() < 0.5), ctx=ctx + 3, cof=int(rng.random() < 0.8),
                               same_lab=int(rng.random() < 0.5),
+                              uncache=sorted(rng.sample(range(n), rng.randint(1, n))) if rng.random() < 0.3 else [],
                               sched=[rng.randrange(1, 8) for _ in range(rng.randint(0, n))])
     # scenario bias: a fail-fast call that aborts with work in flight, then a tolerant call on the same objects
     # (often the same Lab) in which context-dependent failures flip
@@ -160,6 +161,20 @@ def gen_ext_case(rng, **kw):
     return None
 
 
+def gen_poison_case(rng, **kw):
+    """a case in which a pre-cached entry is torn (as a kill mid-save leaves it): the task must be treated as cached -
+    loaded, failing - and must NOT be executed in the same call; monitor-only"""
+    for _ in range(50):
+        c = gen_case(rng, **kw)
+        c.pop('second', None)
+        cand = [t for t in c['pre'] if not (c['fl'][t] & 2)]
+        if cand and not c['bust']:
+            c['poison'] = [rng.choice(cand)]
+            c['cof'] = 1
+            return c
+    return None
+
+
 def ref_values(case, ignore_store=False):
     """plain sequential dependency-first evaluation (None = the task fails / dies)"""
     n = len(case['ty'])
@@ -190,7 +205,7 @@ def encode(case):
     second = ''
     if case.get('second'):
         s2 = case['second']
-        second = (f" req2={lst(s2['req'])} bust2={s2['bust']} ctx2={s2['ctx']} cof2={s2.get('cof', case['cof'])} "
+        second = (f" req2={lst(s2['req'])} bust2={s2['bust']} ctx2={s2['ctx']} cof2={s2.get('cof', case['cof'])} unc2={lst(s2.get('uncache', []))} "
                   f"sched2={lst(s2['sched'] + [ALL] * (len(case['ty']) + 3))}")
     return (f"RUN be={case['be']} mw={mw} cof={case['cof']} bust={case['bust']} ty={lst(case['ty'])} "
             f"mp={','.join('-' if x is None else str(x) for x in case['mp'])} ca={lst(case['ca'])} "
@@ -387,6 +402,11 @@ def run_real(case, workdir):
             else:
                 lab = labtech.Lab(storage=storage_dir, runner_backend=backend, max_workers=case['mw'],
                                   continue_on_failure=bool(ph.get('cof', case['cof'])), context={'c': ph['ctx']})
+            if pi > 0 and ph.get('uncache'):
+                # between the two calls the user removes some entries (on the Lab that will run the second call)
+                lab.uncache_tasks([first[t] for t in ph['uncache'] if t in first])
+                for t in ph['uncache']:
+                    store_before.pop(t, None)
             if case.get('ext'):
                 ext_storage = lab._storage
 
@@ -405,6 +425,14 @@ def run_real(case, workdir):
                         continue
                     o._lt.cache.save(lab._storage, o, TaskResult(value=v, meta=ResultMeta(
                         start=datetime(2020, 1, 1, 0, 0, t % 60), duration=timedelta(seconds=t))))
+            if pi == 0:
+                for t in case.get('poison', []):
+                    o = first.get(t)
+                    if o is not None:
+                        dp = os.path.join(storage_dir, o.cache_key, 'data.pickle')
+                        if os.path.exists(dp):
+                            data = open(dp, 'rb').read()
+                            open(dp, 'wb').write(data[:len(data) // 2])    # what a kill in the middle of a save leaves
             req = [objs[i] for i in ph['req']]
             status = None
             returned = None
@@ -470,8 +498,6 @@ def run_real(case, workdir):
                     if lab.is_cached(o):
                         store[t] = code(o._lt.cache.load_result_with_meta(lab._storage, o).value)
                 except BaseException as e:
-                    if RUN_HOOK is None:
-                        raise
                     store_errors.append(f'{t}: {type(e).__name__}')
             parts.append('store=' + ','.join(f'{t}:{v}' for t, v in sorted(store.items())))
             marked = sorted(i for i, o in enumerate(objs) if o.result_meta is not None)
